@@ -13,6 +13,16 @@ from harness.props import c01
 LEVEL = "model_checking"
 
 
+# words of the stemmed field (none of them is the stem of another) and misspellings of them
+SPWORDS = [u"rendering", u"rendered", u"renders", u"shading", u"shaded", u"lighting", u"lights", u"tracking", u"tracked"]
+SPTYPOS = [u"renderng", u"rendred", u"shadin", u"lightning", u"trackin", u"tracks", u"rendering", u"shades", u"zzz"]
+
+
+def az(word):
+    """letter codes of a lower-case ASCII word (a = 1 ..): the code alphabet of the field sp"""
+    return [ord(ch) - 96 for ch in word]
+
+
 def all_words(letters, maxlen):
     out = []
     for n in range(1, maxlen + 1):
@@ -25,19 +35,27 @@ def build(words, nseg, rng, freqs):
     """One document per lexicon word (plus repeats to vary frequencies); returns (ix, abstract idx)."""
     from whoosh import fields, analysis
     from whoosh.filedb.filestore import RamStorage
-    schema = fields.Schema(key=fields.ID(stored=True), body=fields.TEXT(analyzer=analysis.RegexTokenizer(r"\S+"), spelling=False))
+    # (sp: a stemmed field that keeps the words as typed for spelling suggestions)
+    schema = fields.Schema(key=fields.ID(stored=True), body=fields.TEXT(analyzer=analysis.RegexTokenizer(r"\S+"), spelling=False),
+                           sp=fields.TEXT(analyzer=analysis.StemmingAnalyzer(), spelling=True))
     ix = RamStorage().create_index(schema)
     docs = []
     order = list(words)
     rng.shuffle(order)
     chunks = [order[i::nseg] for i in range(nseg)]
-    for ch in chunks:
+    spw = list(SPWORDS)
+    rng.shuffle(spw)
+    spchunks = [spw[i::nseg] for i in range(nseg)]
+    for ci, ch in enumerate(chunks):
         w = ix.writer()
         w.merge = False
         for wd in ch:
             toks = [wd] * freqs.get(tuple(wd), 1)
             w.add_document(key=u"k%d" % len(docs), body=u" ".join(world.term_text(t) for t in toks))
             docs.append({"live": True, "t": {"body": toks}, "n": {}, "b4": 4})
+        for word in spchunks[ci]:
+            w.add_document(key=u"k%d" % len(docs), sp=word)
+            docs.append({"live": True, "t": {"sp": [az(word)]}, "n": {}, "b4": 4})
         w.commit(merge=False)
     return ix, {"docs": docs}
 
@@ -73,7 +91,7 @@ def check(run):
     for nseg in (1, 3):
         freqs = dict((tuple(w), rng.choice([1, 1, 2, 3])) for w in words)
         ix, idx = build(words, nseg, rng, freqs)
-        docof = dict((tuple(d["t"]["body"][0]), i) for i, d in enumerate(idx["docs"]))
+        docof = dict((tuple(d["t"]["body"][0]), i) for i, d in enumerate(idx["docs"]) if d["t"].get("body"))
         qs = []
         with ix.searcher() as s:
             rd = s.reader()
@@ -116,14 +134,29 @@ def check(run):
                                      "list": [world_term(t) for t in s.suggest("body", text, limit=limit, maxdist=k, prefix=p)]}))
                         run.count(len(obs))
                         qs.append({"q": aq, "obs": obs})
+            # suggestions for a stemmed field that keeps its words for spelling: existing *words* (not stems)
+            for typo in SPTYPOS:
+                for k in (1, 2):
+                    obs = []
+                    try:
+                        obs.append({"kind": "suggest", "path": "suggest(stemmed field with spelling words, %dseg)" % nseg,
+                                    "f": "sp", "word": az(typo), "k": k, "p": 0, "limit": 50,
+                                    "list": [az(t) for t in s.suggest("sp", typo, limit=50, maxdist=k)]})
+                    except Exception as ex:
+                        obs.append({"kind": "error", "path": "suggest(sp)", "err": type(ex).__name__, "msg": str(ex)[:100]})
+                    run.count(len(obs))
+                    qs.append({"q": {"op": "null"}, "obs": obs})
             # Searcher.correct_query: typed queries mixing words that are terms with words that are not
             from whoosh import qparser
             parser = qparser.QueryParser("body", ix.schema)
             absent = [w for w in all_words(letters, maxlen + 1) if len(w) == maxlen + 1] + \
                      [[3], [1, 3], [3, 2, 1], [2, 3, 3, 3, 3, 3]]
             for _ in range(15 if quick else 120):
-                toks = [list(rng.choice(absent)) if rng.random() < 0.5 else list(rng.choice(words))
-                        for _ in range(rng.randrange(1, 4))]
+                toks = []
+                for _ in range(rng.randrange(1, 4)):
+                    t = list(rng.choice(absent)) if rng.random() < 0.5 else list(rng.choice(words))
+                    if t not in toks:          # (the parser merges a word typed twice into one clause)
+                        toks.append(t)
                 qstring = u" ".join(world.term_text(t) for t in toks)
                 k, p = rng.choice([1, 1, 2]), rng.choice([0, 0, 1])
                 obs = []
